@@ -98,12 +98,23 @@ def lake_build(targets):
     return r.returncode == 0, r.stdout
 
 
+def prop_modules(prop):
+    """Props/<prop>.lean and, when present, Props/<prop>H.lean (the history form proved over the refinement)"""
+    mods = [prop]
+    if os.path.exists(os.path.join(LEAN, 'LLTD', 'Props', prop + 'H.lean')):
+        mods.append(prop + 'H')
+    return mods
+
+
 def theorem_names(prop):
-    """all theorems declared in Props/<prop>.lean, qualified"""
-    path = os.path.join(LEAN, 'LLTD', 'Props', prop + '.lean')
-    txt = strip_comments(open(path).read())
-    ns = re.search(r'^namespace\s+(\S+)', txt, re.M).group(1)
-    return [ns + '.' + m for m in re.findall(r'^theorem\s+(\w+)', txt, re.M)]
+    """all theorems declared in Props/<prop>.lean (+ Props/<prop>H.lean), qualified"""
+    names = []
+    for m in prop_modules(prop):
+        path = os.path.join(LEAN, 'LLTD', 'Props', m + '.lean')
+        txt = strip_comments(open(path).read())
+        ns = re.search(r'^namespace\s+(\S+)', txt, re.M).group(1)
+        names += [ns + '.' + t for t in re.findall(r'^theorem\s+(\w+)', txt, re.M)]
+    return names
 
 
 def strip_comments(txt):
@@ -132,14 +143,12 @@ def strip_comments(txt):
 
 
 def lean_sources_of(prop):
-    """the Lean files a property's theorems depend on (Props file + Lemmas + Model + Spec + Generated)"""
+    """the Lean files a property's theorems may depend on: the whole library (Lemmas import other properties' files)"""
     files = []
     for root, _, fs in os.walk(os.path.join(LEAN, 'LLTD')):
         for f in fs:
             if f.endswith('.lean'):
                 rel = os.path.relpath(os.path.join(root, f), LEAN)
-                if rel.startswith(os.path.join('LLTD', 'Props')) and f != prop + '.lean' and f != 'Layout.lean':
-                    continue
                 files.append(os.path.join(root, f))
     return files
 
@@ -157,7 +166,8 @@ def audit(prop, thorough=False):
     os.makedirs(os.path.join(BUILD, 'audit'), exist_ok=True)
     af = os.path.join(BUILD, 'audit', prop + '.lean')
     with open(af, 'w') as f:
-        f.write('import LLTD.Props.%s\n' % prop)
+        for m in prop_modules(prop):
+            f.write('import LLTD.Props.%s\n' % m)
         for n in names:
             f.write('#print axioms %s\n' % n)
     with Lock('lake'):
@@ -182,10 +192,11 @@ def audit(prop, thorough=False):
            'raw': r.stdout[-1500:] if len(seen) != len(names) else ''}
     if thorough:
         with Lock('lake'):
-            r = run(['lake', 'env', 'leanchecker', 'LLTD.Props.' + prop], cwd=LEAN)
-        res['leanchecker'] = 'ok' if r.returncode == 0 else r.stdout[-800:]
-        if r.returncode != 0:
-            problems.append('leanchecker rejected LLTD.Props.%s: %s' % (prop, r.stdout[-400:]))
+            rs = [(m, run(['lake', 'env', 'leanchecker', 'LLTD.Props.' + m], cwd=LEAN)) for m in prop_modules(prop)]
+        res['leanchecker'] = 'ok' if all(r.returncode == 0 for _, r in rs) else ' '.join(r.stdout[-800:] for _, r in rs if r.returncode != 0)
+        for m, r in rs:
+            if r.returncode != 0:
+                problems.append('leanchecker rejected LLTD.Props.%s: %s' % (m, r.stdout[-400:]))
     return res
 
 
